@@ -13,7 +13,15 @@ import time
 VERIF = os.path.dirname(os.path.dirname(os.path.abspath(__file__)))
 REPO = os.environ.get('VERIF_REPO', '/repo')
 SPEC = os.path.join(VERIF, 'spec')
-BUILD = os.path.join(VERIF, '.build')
+# VERIF_REPO (mutation / seeded-change testing against a scratch copy of the repository): binaries, the generated
+# harness module, evidence and replays go to a private directory so that nothing of the real run is overwritten
+if 'VERIF_REPO' in os.environ:
+    import hashlib
+    OUTROOT = os.path.join(VERIF, '.alt', hashlib.md5(REPO.encode()).hexdigest()[:10])
+else:
+    OUTROOT = VERIF
+BUILD = os.path.join(OUTROOT, '.build')
+HARNESS = os.path.join(OUTROOT, 'harness')
 TLA_CP = '/opt/veriftools/tla/tla2tools.jar:/opt/veriftools/tla/CommunityModules-deps.jar'
 NCPU = os.cpu_count() or 4
 
@@ -51,13 +59,20 @@ def run(cmd, cwd=None, env=None, timeout=None, inp=None, check=False):
 _built = {}
 
 
+def _harness_dir():
+    if OUTROOT != VERIF:
+        shutil.rmtree(HARNESS, ignore_errors=True)
+        shutil.copytree(os.path.join(VERIF, 'harness'), HARNESS)
+    return HARNESS
+
+
 def build_mxh(race=False):
     """(Re)build the harness binary against /repo's current working tree with -tags verif."""
     key = 'race' if race else 'std'
     if key in _built:
         return _built[key]
     os.makedirs(BUILD, exist_ok=True)
-    hdir = os.path.join(VERIF, 'harness')
+    hdir = _harness_dir()
     shutil.copyfile(os.path.join(REPO, 'go.sum'), os.path.join(hdir, 'go.sum'))
     gomod = open(os.path.join(hdir, 'go.mod.tmpl')).read().replace('@REPO@', REPO)
     open(os.path.join(hdir, 'go.mod'), 'w').write(gomod)
@@ -81,7 +96,7 @@ def build_tool(name):
         return _built[name]
     build_mxh()
     out = os.path.join(BUILD, name)
-    p = run(['go', 'build', '-tags', 'verif', '-o', out, './cmd/' + name], cwd=os.path.join(VERIF, 'harness'), env=goenv(), timeout=600)
+    p = run(['go', 'build', '-tags', 'verif', '-o', out, './cmd/' + name], cwd=HARNESS, env=goenv(), timeout=600)
     if p.returncode != 0:
         raise Infra('%s build failed:\n%s' % (name, p.stderr.decode('utf-8', 'replace')[-3000:]))
     _built[name] = out
@@ -232,8 +247,8 @@ class Check:
         rc = 0
         replay = None
         if self.violations:
-            os.makedirs(os.path.join(VERIF, 'replays'), exist_ok=True)
-            replay = os.path.join(VERIF, 'replays', '%s-%s-%d.json' % (self.pid, self.tier, self.seed))
+            os.makedirs(os.path.join(OUTROOT, 'replays'), exist_ok=True)
+            replay = os.path.join(OUTROOT, 'replays', '%s-%s-%d.json' % (self.pid, self.tier, self.seed))
             with open(replay, 'w') as f:
                 json.dump({'property': self.pid, 'tier': self.tier, 'seed': self.seed,
                            'violations': self.violations[:(100000 if os.environ.get('VERIF_ALLVIOL') else 50)]}, f, indent=1, default=str)
@@ -246,8 +261,8 @@ class Check:
               'violations': len(self.violations)}
         if self.known_hits:
             ev['coverage']['known_findings_hit'] = self.known_hits
-        os.makedirs(os.path.join(VERIF, 'evidence'), exist_ok=True)
-        with open(os.path.join(VERIF, 'evidence', self.pid + '.json'), 'w') as f:
+        os.makedirs(os.path.join(OUTROOT, 'evidence'), exist_ok=True)
+        with open(os.path.join(OUTROOT, 'evidence', self.pid + '.json'), 'w') as f:
             json.dump(ev, f, indent=1, default=str)
         shutil.rmtree(self.scratch, ignore_errors=True)
         return rc
